@@ -9,6 +9,7 @@ import (
 	"time"
 
 	"github.com/gotd/td/bin"
+	"github.com/gotd/td/clock"
 	"github.com/gotd/td/internal/verifrt"
 )
 
@@ -106,10 +107,22 @@ type verifRun struct {
 }
 
 // verifStart runs both flows (client under ctx) until everything is blocked or finished.
+// verifSkewClock: a clock corrected against the local one (clock/ntp style). The exchange timeout
+// is a duration: it must not depend on the correction.
+type verifSkewClock struct{ off time.Duration }
+
+func (c verifSkewClock) Now() time.Time                      { return time.Now().Add(c.off) }
+func (c verifSkewClock) Timer(d time.Duration) clock.Timer   { return clock.System.Timer(d) }
+func (c verifSkewClock) Ticker(d time.Duration) clock.Ticker { return clock.System.Ticker(d) }
+
 func verifStart(ctx context.Context, timeout time.Duration, temp bool, p *verifPipe) *verifRun {
+	return verifStartSkew(ctx, timeout, temp, p, 0)
+}
+
+func verifStartSkew(ctx context.Context, timeout time.Duration, temp bool, p *verifPipe, skew time.Duration) *verifRun {
 	r := &verifRun{p: p}
 	key := verifServerKey()
-	ce := NewExchanger(verifEnd{p, true}, 2).WithTimeout(timeout).WithRand(&verifRand{1})
+	ce := NewExchanger(verifEnd{p, true}, 2).WithTimeout(timeout).WithRand(&verifRand{1}).WithClock(verifSkewClock{skew})
 	if temp {
 		ce = ce.WithTempMode(3600)
 	}
